@@ -47,6 +47,7 @@ fn text() -> impl Strategy<Value = String> {
         1 => Just("é".repeat(8186)),
         1 => Just("z".repeat(8187)),
         1 => Just("😀 astral".to_string()),
+        1 => prop_oneof![Just("\u{FEFF}abc".to_string()), Just("\u{FFFE}x".to_string()), Just("\u{BBEF}\u{BF}z".to_string())],
     ]
 }
 
@@ -214,6 +215,9 @@ fn oracle(case: &Case) -> Report {
 fn run(ctx: &mut Ctx) {
     let n = ctx.n(2500, 40_000);
     ctx.run("workbook", n, case_strategy, oracle);
+    // shared-string indices beyond 16 bits: BrtCellIsst carries a 32-bit index
+    let n = ctx.n(1, 20);
+    ctx.run("bigtable", n, || crate::props::c19::big_table().prop_map(|mut b| { b.fmt = 1; b }), crate::props::c19::oracle_big);
     let _ = BTreeMap::<u8, u8>::new();
     ctx.assumptions.push("parts use the names every producer writes (xl/workbook.bin, xl/_rels/workbook.bin.rels, xl/sharedStrings.bin, xl/styles.bin, worksheets/sheetN.bin); BrtWsDim is present; rows ascend".into());
 }
@@ -221,6 +225,7 @@ fn run(ctx: &mut Ctx) {
 fn replay(sub: &str, case: &serde_json::Value) -> Option<Report> {
     match sub {
         "workbook" => replay_as::<Case>(case, oracle),
+        "bigtable" => replay_as::<crate::props::c19::BigTable>(case, crate::props::c19::oracle_big),
         _ => None,
     }
 }
